@@ -19,6 +19,7 @@ pub struct X {
     patterns: [u64; 8],
     hashes: std::collections::HashSet<u64>,
     ball_hands: u64,
+    cancel_hands: u64,
 }
 
 fn mk() -> X {
@@ -389,6 +390,64 @@ pub fn run(ctx: &Ctx) -> Rep {
     let (r2b, x2b) = merge_states(s2b);
     rep.merge(r2b);
 
+    // ---- (2c) cancellation families ---------------------------------------------------------------------
+    // Hands whose non-card words cancel under XOR or under wrapping addition (the last corrupt word is the
+    // XOR / the negated sum of the others), or carry one common bit mask on a "rectangle" of cards
+    // (two ranks x two suits, whose words XOR to zero): what a validity test that folds the slots into one
+    // accumulator with the wrong operator would let through. All are invalid by the oracle.
+    let n_cancel = ctx.pick(50, 60_000, 1_000_000) as usize;
+    let s2c = par_run(ctx, 64, mk, |st, ch| {
+        let mut rng = Rng::new(seed, 0xC04_1C00 + ch as u64);
+        for _ in 0..(n_cancel / 64) {
+            for n in 3..=7usize {
+                let k = 2 + rng.below((n - 1) as u64) as usize; // corrupt slots: 2..=n
+                let mode = rng.below(3);
+                let mut corrupt: Vec<u32> = Vec::new();
+                if mode == 2 && k >= 4 {
+                    // one mask on a rectangle of cards
+                    let (r1, r2) = (rng.below(13) as u8, rng.below(13) as u8);
+                    let (s1, s2) = (rng.below(4) as u8, rng.below(4) as u8);
+                    if r1 == r2 || s1 == s2 {
+                        continue;
+                    }
+                    let mask = 1u32 << rng.below(32);
+                    for (r, s) in [(r1, s1), (r1, s2), (r2, s1), (r2, s2)] {
+                        corrupt.push(model::word(model::idx(r, s)) ^ mask);
+                    }
+                } else {
+                    for _ in 0..(k - 1) {
+                        // near-miss words that stay numerically between the lowest and the highest card
+                        let c = model::word(rng.below(52) as u8);
+                        corrupt.push(c ^ (1u32 << rng.below(16)) ^ if rng.chance(1, 3) { 1u32 << rng.below(16) } else { 0 });
+                    }
+                    let last = if mode == 0 { corrupt.iter().fold(0u32, |a, &b| a ^ b) } else { corrupt.iter().fold(0u32, |a, &b| a.wrapping_sub(b)) };
+                    corrupt.push(last);
+                }
+                if corrupt.len() > n || corrupt.iter().any(|&w| w == 0 || model_card_index(w).is_some()) {
+                    continue;
+                }
+                let mut sorted = corrupt.clone();
+                sorted.sort_unstable();
+                if sorted.windows(2).any(|p| p[0] == p[1]) {
+                    continue;
+                }
+                let mut h: Vec<u32> = corrupt;
+                while h.len() < n {
+                    let w = model::word(rng.below(52) as u8);
+                    if !h.contains(&w) {
+                        h.push(w);
+                    }
+                }
+                rng.shuffle(&mut h);
+                check_hand(st, &h);
+                st.x.cancel_hands += 1;
+                st.x.hashes.insert(drive::hash_words(&h) ^ n as u64);
+            }
+        }
+    });
+    let (r2c, x2c) = merge_states(s2c);
+    rep.merge(r2c);
+
     // ---- (3) all ordered arrays over {52 cards, blank} ------------------------
     // n = 2, 3, 4 (and 5 in the thorough tier); units = first two slots
     let sizes: Vec<usize> = if ctx.smoke() { vec![2] } else if ctx.thorough() { vec![2, 3, 4, 5] } else { vec![2, 3, 4] };
@@ -466,7 +525,7 @@ pub fn run(ctx: &Ctx) -> Rep {
     rep.merge(r5);
 
     let mut acc = mk();
-    for x in x1.into_iter().chain(x1b).chain(x2).chain(x2b).chain(x3).chain(x4).chain(x5) {
+    for x in x1.into_iter().chain(x1b).chain(x2).chain(x2b).chain(x2c).chain(x3).chain(x4).chain(x5) {
         for k in 0..8 {
             acc.valid[k] += x.valid[k];
             acc.invalid[k] += x.invalid[k];
@@ -475,6 +534,7 @@ pub fn run(ctx: &Ctx) -> Rep {
         acc.words_swept += x.words_swept;
         acc.cards_recognised += x.cards_recognised;
         acc.ball_hands += x.ball_hands;
+        acc.cancel_hands += x.cancel_hands;
         acc.hashes.extend(x.hashes);
     }
     rep.distinct += acc.hashes.len() as u64;
@@ -486,6 +546,7 @@ pub fn run(ctx: &Ctx) -> Rep {
         rep.add(&format!("size{}.equality_pattern_instances", n), acc.patterns[n]);
     }
     rep.add("set_partitions_covered", jobs.len() as u64);
+    rep.add("cancellation_family_hands(non-card words that XOR / sum to zero)", acc.cancel_hands);
     rep.add("hamming_ball_hands(every word within distance 2 of a card or blank, every slot, every size)", acc.ball_hands);
     if !ctx.smoke() {
         rep.floor("words swept", acc.words_swept, (1u64 << 32) / leg_stride as u64);
@@ -502,7 +563,7 @@ pub fn run(ctx: &Ctx) -> Rep {
     rep.rule = format!(
         "(1) all 2^32 words (a 1-in-16 share of the 2^16-word blocks in the checked leg) placed in {} next to distinct real cards, \
          and every word within Hamming distance 2 of a card or blank in every slot of every size; (2) for n=2..7 every set partition of the slots x every assignment of \
-         {{card, blank, near-miss, arbitrary}} to the blocks x {} seeded instantiations, and all-card instantiations with each block in turn holding the smallest / largest card; (3) all ordered arrays over {{52 cards, blank}} for n in {:?}; \
+         {{card, blank, near-miss, arbitrary}} to the blocks x {} seeded instantiations, and all-card instantiations with each block in turn holding the smallest / largest card, and hands whose non-card words cancel under XOR / addition; (3) all ordered arrays over {{52 cards, blank}} for n in {:?}; \
          (4) all 2,598,960 valid five-card hands; (5) {} seeded hands per size 5..7. distinct = enumerated cases (1,3,4) + hash-set count of the generated hands (2,5); \
          every case is non-trivial (each runs the validity oracle against the crate)",
         if every_slot { "every slot of every size 2..7" } else { "one seeded slot of a Two (and of a Five for 1-in-16 blocks)" },
